@@ -58,3 +58,96 @@ Proof.
               (pinit [ps_ops sc] (pool_workers (ps_workers sc)))) as [sched H].
   exists sched. rewrite H. reflexivity.
 Qed.
+
+(* ------------------------------------------------------------ blocks_ok holds of every run *)
+(* the walk that the check applies to the implementation's log (Corr/PoolCorr.v: at every note,
+   Submit calls returned - tasks ended <= workers + queue) holds of the log of EVERY schedule,
+   hence of the model log of the correspondence check *)
+Lemma blocks_ok_app w l1 : forall l2 n,
+  blocks_ok w (l1 ++ l2) n = blocks_ok w l1 n && blocks_ok w l2 (n + length (ends l1)).
+Proof.
+  induction l1 as [|e l1 IH]; intros l2 n; cbn [app blocks_ok ends flat_map length].
+  - now rewrite Nat.add_0_r.
+  - destruct e; cbn [app length]; rewrite ?IH, ?app_length; cbn [length];
+      rewrite ?Bool.andb_assoc; try reflexivity.
+    + f_equal. f_equal. unfold ends. lia.
+Qed.
+
+Section Walk.
+Variable workers : nat.
+Notation qc := (2 * workers).
+
+Record WInv (s : pst) : Prop := {
+  W_p : PInv s;
+  W_q : length (p_queue s) <= qc;
+  W_w : length (p_ws s) = workers;
+  W_b : blocks_ok workers (p_log s) 0 = true
+}.
+
+Lemma outstanding_le s : PInv s -> length (p_queue s) <= qc -> length (p_ws s) = workers ->
+  length (p_added s) - length (pending_sends (p_subs s)) - length (ends (p_log s)) <= workers + qc.
+Proof.
+  intros I Hq Hw. pose proof (busy_le (p_ws s)) as Hb.
+  pose proof (P_cons _ I) as Hperm. apply perm_len in Hperm. unfold whereabouts in Hperm.
+  rewrite !app_length in Hperm. lia.
+Qed.
+
+Lemma pstep_log s t s' : pstep qc s t = Some s' -> exists evs, p_log s' = p_log s ++ evs /\
+  (evs = [] \/ (exists x, evs = [EvStart x]) \/ (exists x, evs = [EvEnd x]) \/ (exists j, evs = [EvWaitReturn j]) \/
+   evs = [EvSubmitted (length (p_added s) - length (pending_sends (p_subs s))); EvPark (sort_nats (busy_tasks (p_ws s)))]).
+Proof.
+  intros H. destruct t as [j|k|k|]; cbn [pstep] in H.
+  - destruct (nth_error (p_subs s) j) as [x|]; [|discriminate].
+    destruct (s_ops x) as [|[tk| | |] rest]; try discriminate.
+    + destruct (s_adding x).
+      * destruct (Nat.ltb (length (p_queue s)) qc); inversion H; subst; cbn. exists []. rewrite app_nil_r. auto.
+      * inversion H; subst; cbn. exists []. rewrite app_nil_r. auto.
+    + destruct (Nat.eqb (p_wg s) 0); inversion H; subst; cbn. eexists. split; [reflexivity|]. right; right; right; left. eauto.
+    + destruct (all_done s); inversion H; subst; cbn. exists []. rewrite app_nil_r. auto.
+    + inversion H; subst; cbn. exists []. rewrite app_nil_r. auto.
+  - destruct (nth_error (p_ws s) k) as [[|tk|]|]; try discriminate.
+    + destruct (p_queue s) as [|tk rest]; inversion H; subst; cbn. eexists. split; [reflexivity|]. right; left. eauto.
+    + inversion H; subst; cbn. eexists. split; [reflexivity|]. right; right; left. eauto.
+  - destruct (nth_error (p_ws s) k) as [[|tk|]|]; try discriminate.
+    destruct (p_closed s); inversion H; subst; cbn. exists []. rewrite app_nil_r. auto.
+  - inversion H; subst; cbn. eexists. split; [reflexivity|]. right; right; right; right. reflexivity.
+Qed.
+
+Lemma pstep_winv s t s' : WInv s -> pstep qc s t = Some s' -> WInv s'.
+Proof.
+  intros [Ip Iq Iw Ib] H. constructor.
+  - eapply pstep_inv; eauto.
+  - eapply pstep_queue; eauto.
+  - rewrite (pstep_ws_len _ _ _ _ H). exact Iw.
+  - destruct (pstep_log _ _ _ H) as [evs [L Hev]]. rewrite L, blocks_ok_app, Ib. cbn [andb].
+    destruct Hev as [->|[[x ->]|[[x ->]|[[j ->]| ->]]]]; cbn [blocks_ok]; try reflexivity.
+    rewrite Bool.andb_true_r. apply Nat.leb_le. cbn [Nat.add].
+    pose proof (outstanding_le s Ip Iq Iw). lia.
+Qed.
+
+Lemma prun_winv sched : forall s, WInv s -> WInv (prun qc s sched).
+Proof.
+  induction sched as [|t rest IH]; intros s I; cbn [prun]; auto.
+  destruct (pstep qc s t) as [s'|] eqn:E; auto. apply IH. eapply pstep_winv; eauto.
+Qed.
+
+End Walk.
+
+Lemma blocks_ok_every_run progs workers sched :
+  NoDup (flat_map (fun ops => flat_map (fun o => match o with PSubmit t => [t] | _ => [] end) ops) progs) ->
+  blocks_ok workers (p_log (prun (2 * workers) (pinit progs workers) sched)) 0 = true.
+Proof.
+  intros Hnd. apply (W_b workers). apply prun_winv. constructor.
+  - apply pinit_inv. exact Hnd.
+  - cbn. lia.
+  - cbn. apply repeat_length.
+  - reflexivity.
+Qed.
+
+Lemma blocks_ok_model_log (sc : pscen) :
+  NoDup (flat_map (fun o => match o with PSubmit t => [t] | _ => [] end) (ps_ops sc)) ->
+  blocks_ok (pool_workers (ps_workers sc)) (model_plog sc) 0 = true.
+Proof.
+  intros Hnd. destruct (model_plog_is_a_run sc) as [sched H]. cbn zeta in H. rewrite H.
+  apply blocks_ok_every_run. cbn [flat_map]. rewrite app_nil_r. exact Hnd.
+Qed.
